@@ -168,7 +168,7 @@ class BreakdownScheduler(Entity):
                 ttf,
             )
 
-            return [
+            events = [
                 Event(
                     time=Instant.from_seconds(now_s + ttf),
                     event_type=_BREAKDOWN,
@@ -176,5 +176,15 @@ class BreakdownScheduler(Entity):
                     daemon=True,
                 )
             ]
+            # A queue-fronted target only fetches work on a notify (empty ->
+            # non-empty) or a completion. Neither happens when capacity comes
+            # back through a repair, so tell its driver to look at the queue.
+            driver = getattr(self.target, "driver", None)
+            queue = getattr(self.target, "queue", None)
+            if driver is not None and queue is not None:
+                from happysimulator.components.queue import QueueNotifyEvent
+
+                events.append(QueueNotifyEvent(time=self.now, target=driver, queue_entity=queue))
+            return events
 
         return []
